@@ -66,6 +66,11 @@ type h2Req struct {
 	Chunks  []int      `json:"chunks,omitempty"`
 	Resp    h2Resp     `json:"upstream_response"`
 	Abort   int        `json:"client_abort_after_bytes,omitempty"` // fault: client closes after writing n bytes of the request
+	// To: address of the fabio listener this request goes to ("" = h2FabioAddr, see serveAt). A client keeps one
+	// connection per listener address.
+	To string `json:"listener,omitempty"`
+	// CloseAfter: the client closes its connection after this exchange (the next request to that listener dials anew)
+	CloseAfter bool `json:"client_closes_connection_after,omitempty"`
 }
 
 type h2Client struct {
@@ -114,6 +119,10 @@ type h2Env struct {
 	proxy *proxy.HTTPProxy
 	srv   *http.Server
 	tlsc  *tls.Config
+	// further listeners started with serveAt
+	moreSrv     []*http.Server
+	moreProxies []*proxy.HTTPProxy
+	tlsAt       map[string]bool
 
 	mu       sync.Mutex
 	script   map[string]*h2Req
@@ -171,6 +180,44 @@ func (e *h2Env) serve(tlscfg *tls.Config) {
 		l = tls.NewListener(ln, tlscfg)
 	}
 	go e.srv.Serve(l)
+}
+
+// serveAt starts one more real http.Server on addr (a "host:port" other than h2FabioAddr) in front of p
+// (nil: the proxy of serve). Requests reach it with h2Req.To = addr.
+func (e *h2Env) serveAt(addr string, tlscfg *tls.Config, p *proxy.HTTPProxy) {
+	ln, err := e.net.Listen(addr, simnet.ListenOpts{})
+	if err != nil {
+		e.r.Trouble("listen %s: %v", addr, err)
+		e.r.Abort()
+	}
+	if p == nil {
+		p = e.proxy
+	} else {
+		e.moreProxies = append(e.moreProxies, p)
+	}
+	var h http.Handler = p
+	if e.wrap != nil {
+		h = e.wrap(h)
+	}
+	counted := http.HandlerFunc(func(w http.ResponseWriter, req *http.Request) {
+		e.mu.Lock()
+		e.handlers++
+		e.mu.Unlock()
+		h.ServeHTTP(w, req)
+	})
+	srv := &http.Server{Handler: counted, TLSConfig: tlscfg}
+	e.moreSrv = append(e.moreSrv, srv)
+	e.mu.Lock()
+	if e.tlsAt == nil {
+		e.tlsAt = map[string]bool{}
+	}
+	e.tlsAt[addr] = tlscfg != nil
+	e.mu.Unlock()
+	var l net.Listener = ln
+	if tlscfg != nil {
+		l = tls.NewListener(ln, tlscfg)
+	}
+	go srv.Serve(l)
 }
 
 // upstream starts a raw recording upstream under key.
@@ -395,42 +442,66 @@ func (e *h2Env) client(cl *h2Client) {
 			e.mu.Unlock()
 		}()
 		base := e.netAddr(cl.Addr)
-		var c net.Conn
-		var br *bufio.Reader
+		// one connection per listener address (only h2FabioAddr unless requests name another one)
+		type clientConn struct {
+			c  net.Conn
+			br *bufio.Reader
+		}
+		conns := map[string]*clientConn{}
+		var order []string // listener addresses in the order of their first use
 		nconn := 0
-		closeConn := func() {
-			if c != nil {
-				c.Close()
-				c = nil
+		closeConn := func(to string) {
+			if cc := conns[to]; cc != nil {
+				cc.c.Close()
+				delete(conns, to)
 			}
 		}
-		defer closeConn()
+		defer func() {
+			for _, to := range order {
+				closeConn(to)
+			}
+		}()
 		for i := range cl.Reqs {
 			rq := &cl.Reqs[i]
 			res := &h2Result{}
 			e.mu.Lock()
 			e.results[rq.ID] = res
 			e.mu.Unlock()
-			if c == nil {
+			to, useTLS := h2FabioAddr, cl.TLS
+			if rq.To != "" && rq.To != h2FabioAddr {
+				to = rq.To
+				e.mu.Lock()
+				useTLS = e.tlsAt[to]
+				e.mu.Unlock()
+			}
+			if conns[to] == nil {
+				known := false
+				for _, o := range order {
+					known = known || o == to
+				}
+				if !known {
+					order = append(order, to)
+				}
 				from := &net.TCPAddr{IP: base.IP, Port: base.Port + nconn, Zone: base.Zone}
 				nconn++
-				raw, err := e.net.Dial(e.r.Ctx(), from, h2FabioAddr, 0)
+				raw, err := e.net.Dial(e.r.Ctx(), from, to, 0)
 				if err != nil {
 					res.Err = err
 					continue
 				}
-				c = raw
-				if cl.TLS {
+				var c net.Conn = raw
+				if useTLS {
 					tc := tls.Client(raw, &tls.Config{InsecureSkipVerify: true, ServerName: "fabio.sim", NextProtos: []string{"http/1.1"}})
 					if err := tc.Handshake(); err != nil {
 						res.Err = err
-						closeConn()
+						raw.Close()
 						continue
 					}
 					c = tc
 				}
-				br = bufio.NewReader(c)
+				conns[to] = &clientConn{c: c, br: bufio.NewReader(c)}
 			}
+			c, br := conns[to].c, conns[to].br
 			raw := h2RenderRequest(rq)
 			res.SentAt = time.Now()
 			e.r.Tracef("client %s sends %s %s id=%s", cl.Addr, rq.Method, rq.Path, rq.ID)
@@ -440,13 +511,13 @@ func (e *h2Env) client(cl *h2Client) {
 					n = len(raw)
 				}
 				c.Write(raw[:n])
-				closeConn()
+				closeConn(to)
 				res.Err = fmt.Errorf("client aborted after %d bytes", n)
 				continue
 			}
 			if err := h2WriteChunks(c, raw, rq.Chunks); err != nil {
 				res.Err = err
-				closeConn()
+				closeConn(to)
 				continue
 			}
 			resp, err := http.ReadResponse(br, &http.Request{Method: rq.Method})
@@ -457,7 +528,7 @@ func (e *h2Env) client(cl *h2Client) {
 			}
 			if err != nil {
 				res.Err = err
-				closeConn()
+				closeConn(to)
 				continue
 			}
 			res.HeaderAt = time.Now()
@@ -466,8 +537,8 @@ func (e *h2Env) client(cl *h2Client) {
 			res.Body, res.BodyErr = io.ReadAll(resp.Body)
 			res.DoneAt = time.Now()
 			e.r.Tracef("client %s got %d id=%s body=%d err=%v", cl.Addr, res.Status, rq.ID, len(res.Body), res.BodyErr)
-			if resp.Close || res.BodyErr != nil {
-				closeConn()
+			if resp.Close || res.BodyErr != nil || rq.CloseAfter {
+				closeConn(to)
 			}
 		}
 	}()
@@ -510,12 +581,23 @@ func (e *h2Env) finish() {
 	if e.srv != nil {
 		e.srv.Close()
 	}
+	for _, srv := range e.moreSrv {
+		srv.Close()
+	}
 	e.net.Shutdown()
 	if tr, ok := e.proxy.Transport.(*http.Transport); ok {
 		tr.CloseIdleConnections()
 	}
 	if tr, ok := e.proxy.InsecureTransport.(*http.Transport); ok {
 		tr.CloseIdleConnections()
+	}
+	for _, p := range e.moreProxies {
+		if tr, ok := p.Transport.(*http.Transport); ok {
+			tr.CloseIdleConnections()
+		}
+		if tr, ok := p.InsecureTransport.(*http.Transport); ok {
+			tr.CloseIdleConnections()
+		}
 	}
 	e.d.Finish()
 }
